@@ -201,6 +201,8 @@ def known_matcher(fnd, case):
         return case.get('clause', '').endswith('@newline-flag')
     if k == 'token-through-expand1':
         return case.get('clause', '').endswith('@token-through-expand1')
+    if k == 'ambig-child-skipped':
+        return case.get('clause', '').startswith('explicit:') and case.get('clause', '').endswith('@through-ambig')
     return False
 
 
@@ -257,6 +259,97 @@ def judge(cases, ev, rep, tmp, name):
     ev.cov['drift_samples'] = ev.cov.get('drift_samples', [])[:5]
 
 
+# ---- ambiguity='explicit': nesting law on the trees Earley returns (TraceSpans.tla) -----------------------------------------
+AMB_HAND = [
+    ('start: x C\nx: a | b\na: B\nb: B\nB: "b"\nC: "c"\n%ignore /\\s+/\n', ['b\nc', 'b c', 'bc']),
+    ('start: C x\nx: a | b\na: B\nb: B\nB: "b"\nC: "c"\n%ignore /\\s+/\n', ['c\nb', 'cb']),
+    ('start: x+\nx: a | b | a b\na: B\nb: B\nB: "b"\n%ignore /\\s+/\n', ['b b', 'b\nb\nb']),
+    ('start: a | "(" d ")"\nd: b\n?a: "(" b ")"\nb: B\nB: "b"\n%ignore /\\s+/\n', ['(b)', '( b\n)']),
+    ('start: e\ne: e "+" e | N\nN: "1"\n%ignore /\\s+/\n', ['1+1+1', '1 +\n1 + 1']),
+]
+
+
+def amb_case(job):
+    import logging
+    logging.disable(logging.CRITICAL)
+    from lark import Lark, Tree, Token
+    g, text, lexer = job
+    case = {'grammar': g, 'text': text, 'lexer': lexer, 'nodes': [], 'skip': '', 'ambig': 0}
+    try:
+        with O.budget(20):
+            t = Lark(g, parser='earley', lexer=lexer, ambiguity='explicit', propagate_positions=True).parse(text)
+    except Exception as e:
+        case['skip'] = type(e).__name__
+        return case
+    if not isinstance(t, Tree):
+        case['skip'] = 'no tree'
+        return case
+
+    def extent(c):
+        # <<start, end, through>> of a child, or None when it has no extent (None placeholder, empty tree)
+        if isinstance(c, Token):
+            return [c.start_pos, c.end_pos, 0] if c.start_pos is not None else None
+        if isinstance(c, Tree):
+            if c.data == '_ambig':
+                ex = [extent(a) for a in c.children]
+                ex = [e for e in ex if e]
+                return [min(e[0] for e in ex), max(e[1] for e in ex), 1] if ex else None
+            return [c.meta.start_pos, c.meta.end_pos, 0] if not c.meta.empty else None
+        return None
+    seen = set()
+    for n in t.iter_subtrees():
+        if id(n) in seen:
+            continue
+        seen.add(id(n))
+        if n.data == '_ambig':
+            case['ambig'] += 1
+            continue
+        if n.meta.empty:
+            continue
+        kids = [e for e in (extent(c) for c in n.children) if e]
+        case['nodes'].append([n.meta.start_pos, n.meta.end_pos, kids])
+        if len(case['nodes']) >= 400:
+            break
+    return case
+
+
+def amb_phase(tier, rng, ev, rep, tmp):
+    from . import ebnf as E
+    jobs = []
+    for g, texts in AMB_HAND:
+        for text in texts:
+            for lx in ('basic', 'dynamic', 'dynamic_complete'):
+                jobs.append((g, text, lx))
+    for _ in range(C.scale(300 if tier == 'quick' else 3000)):
+        G = E.rand_grammar(rng, depth=2)
+        gt = E.grammar_text(G) + '%ignore /[ \\n]+/\n'
+        for _k in range(4):
+            w = E.sample_sentence(G, rng, maxlen=6)
+            if w:
+                text = ''.join(E.to_text([x]) + rng.choice(['', ' ', '\n']) for x in w)
+                jobs.append((gt, text, rng.choice(['basic', 'dynamic'])))
+    cases = [c for c in C.pmap(amb_case, jobs) if not c['skip'] and c['nodes']]
+    ev.count('explicit_ambiguity_parses', len(cases))
+    ev.count('explicit_ambiguity_parses_with_ambig_nodes', sum(1 for c in cases if c['ambig']))
+    ev.count('explicit_ambiguity_nodes', sum(len(c['nodes']) for c in cases))
+    CH = 1500
+    paths = []
+    for off in range(0, len(cases), CH):
+        paths.append(C.write_batch({'cases': [{'nodes': c['nodes']} for c in cases[off:off + CH]]}, tmp, 'c06_amb_%d.json' % off))
+    results = C.tlc_parallel('TraceSpans', 'SPECIFICATION Spec\nINVARIANT VerdictOk\nCHECK_DEADLOCK FALSE\n', paths, continue_=True, timeout=3000)
+    for i, res in enumerate(results):
+        C.tlc_must_run(res, 'TraceSpans')
+        ev.add_tlc('TraceSpans:explicit', res, 'trace')
+        if res.violated and not res.verdicts:
+            raise C.MachineryFailure('TraceSpans violation without VERDICT line')
+        for v in sorted(set(tuple(x) for x in res.verdicts)):
+            c = cases[i * CH + int(v[0]) - 1]
+            rep.violation({'property': PID, 'clause': 'explicit:' + v[2], 'grammar': c['grammar'], 'text': c['text'], 'lexer': c['lexer'],
+                           'node': c['nodes'][int(v[1]) - 1], 'amb_spec': [c['grammar'], c['text'], c['lexer']]})
+    if ev.cov['counts'].get('explicit_ambiguity_parses_with_ambig_nodes', 0) < 30:
+        raise C.MachineryFailure('vacuity: %s' % ev.cov['counts'])
+
+
 def body(tier, seed, replay):
     ev = C.Evidence(PID, tier, seed)
     rep = C.Reporter(PID, ev, known_matcher)
@@ -268,6 +361,16 @@ def body(tier, seed, replay):
             sp = json.load(open(replay))['builder_spec']
             sp['inputs'] = [tuple(w) for w in sp['inputs']]
             tb.judge(PID, [c for c in [tb.observe_case(sp)] if not c['skip']], ev, rep, tmp, 'replay')
+            return rep.finish()
+        if replay and 'amb_spec' in json.load(open(replay)):
+            global AMB_HAND
+            g, text, lx = json.load(open(replay))['amb_spec']
+            case = amb_case((g, text, lx))
+            path = C.write_batch({'cases': [{'nodes': case['nodes']}]}, tmp, 'c06_amb_replay.json')
+            res = C.tlc_parallel('TraceSpans', 'SPECIFICATION Spec\nINVARIANT VerdictOk\nCHECK_DEADLOCK FALSE\n', [path], continue_=True, timeout=600)[0]
+            C.tlc_must_run(res, 'TraceSpans')
+            for v in sorted(set(tuple(x) for x in res.verdicts)):
+                rep.violation({'property': PID, 'clause': 'explicit:' + v[2], 'grammar': g, 'text': text, 'lexer': lx, 'amb_spec': [g, text, lx]})
             return rep.finish()
         if replay:
             case = json.load(open(replay))
@@ -299,6 +402,7 @@ def body(tier, seed, replay):
         # L1: the positions every reduction of the real LALR parser sets, against PropagatePositions of TreeBuilder.tla
         from . import tb
         tb.phase(PID, tier, rng, ev, rep, tmp, n_quick=1500, n_thorough=12000)
+        amb_phase(tier, rng, ev, rep, tmp)
         if ev.cov['counts'].get('runs_with_tokens_after_a_newline', 0) < 2000 or ev.cov['counts'].get('tree_nodes', 0) < 2000:
             raise C.MachineryFailure('vacuity: %s' % ev.cov['counts'])
         ev.assumptions += ['newline offsets of the text and the extents of tokens are taken from the text itself; Python re decides single-terminal matches']
